@@ -121,7 +121,7 @@ func checkWork(c workCase) *vt.Fail {
 func genWork(t *rapid.T) workCase {
 	items := rapid.IntRange(1, 40).Draw(t, "items")
 	c := workCase{N: rapid.IntRange(1, 8).Draw(t, "n")}
-	c.Initial = rapid.SliceOfN(rapid.IntRange(0, items-1), 1, 4).Draw(t, "initial")
+	c.Initial = rapid.SliceOfN(rapid.IntRange(0, items-1), 1, 16).Draw(t, "initial")
 	for i := 0; i < items; i++ {
 		c.Succ = append(c.Succ, rapid.SliceOfN(rapid.IntRange(0, items-1), 0, 4).Draw(t, "succ"))
 		c.Spin = append(c.Spin, rapid.IntRange(0, 3).Draw(t, "spin"))
